@@ -6,8 +6,9 @@ import os
 HERE = os.path.dirname(os.path.dirname(os.path.abspath(__file__)))
 
 COMMON_NOTE = ("Trusted: Coq 8.16.1 kernel incl. vm_compute (no native_compute, no extraction); the hand-written "
-               "Gallina model is tied to /repo only by the correspondence run on every invocation (agree and holds "
-               "are both computed inside Coq on what the implementation did); harness generators/driver/encoder; "
+               "Gallina model is tied to /repo by the correspondence run on every invocation (agree and holds "
+               "are both computed inside Coq on what the implementation did) and, for the functions named under TIE BY "
+               "REGENERATION, by proved equality with their control flow as regenerated from the source on that run; harness generators/driver/encoder; "
                "coq/Gen regenerated from the source and the running interpreter by harness/extract.py. ")
 
 T = "Coq proof ({how}) + in-Coq differential correspondence"
@@ -372,12 +373,14 @@ TIES = {
             "dynamic getattr/setattr of the three private slots as keyed stores"),
     "C03": ("Props/C03Tie.v", 3, "NativeVersion._order, _version_cmp_string, _version_cmp_part",
             "the four regex leaves and int()"),
-    "C05": ("Props/C05Tie.v", 4, "PARTIAL: _format_comment (full), Deb822NoDuplicateFieldsParagraphElement.get_kvpair_element "
-            "(full, refinement under C10's representation), and the text-building layer of __setitem__ and "
+    "C05": ("Props/C05Tie.v", 6, "PARTIAL: _format_comment (full), Deb822NoDuplicateFieldsParagraphElement.get_kvpair_element and "
+            "set_kvpair_element (full, refinements under C10's representation: replace in place or append behind the "
+            "supplied final newline, same KeyError/ValueError; the freshness of the parsed element is proved), and the "
+            "text-building layer of __setitem__ and "
             "set_field_to_simple_value (which exact text and comment arguments they hand on, and which values they reject "
-            "unchanged — the model's own expressions; theorems named _partial).  set_field_from_raw_string and "
-            "set_kvpair_element are regenerated and type-checked on every run but their refinement theorems against "
-            "set_raw / nd_set_kvpair are not proved; the duplicates class is not tied", "str methods, the one-field "
+            "unchanged — the model's own expressions; theorems named _partial).  set_field_from_raw_string is "
+            "regenerated and type-checked on every run but its refinement theorem against set_raw is not proved (draft in "
+            "notes/wip); the duplicates class is not tied", "str methods, the one-field "
             "parser call as the model's recogniser, comment elements as their text (source hashes asserted)"),
     "C06": ("Props/C06Tie.v", 9, "ArMember.read, readline, readlines, seek, tell (method mode: the private attributes "
             "are threaded as state, returned on exceptions too; guard: __fp and __fname not both None, established by "
